@@ -61,6 +61,8 @@ class SSETransport(Transport):
         # Message handling - support both immediate and async responses
         self._pending_requests: Dict[str, asyncio.Future] = {}
         self._message_lock = asyncio.Lock()
+        # Requests that already got their terminal message (late answers are dropped)
+        self._finished_requests: Dict[str, None] = {}
 
         # Memory streams for chuk_mcp message API
         self._incoming_send: Optional[MemoryObjectSendStream] = None
@@ -126,6 +128,13 @@ class SSETransport(Transport):
             # Wait for SSE connection to establish
             try:
                 await asyncio.wait_for(self._connected.wait(), timeout=self.timeout)
+                if not self._message_url:
+                    # The connection task ended (HTTP error, connect error, stream
+                    # closed) without the server announcing its message endpoint:
+                    # never hand out a dead connection
+                    raise RuntimeError(
+                        "SSE connection failed: no message endpoint announced"
+                    )
                 logger.info(f"SSE connection established to {self.base_url}")
                 return self
 
@@ -356,6 +365,11 @@ class SSETransport(Transport):
             message_id = message_data.get("id")
             if message_id is not None:
                 message_id = str(message_id)
+                if "method" not in message_data and message_id in self._finished_requests:
+                    # The request already ended (timeout error, POST failure):
+                    # a late answer must not become a second terminal message
+                    logger.debug(f"Dropping late answer for request {message_id}")
+                    return
                 async with self._message_lock:
                     if message_id in self._pending_requests:
                         future = self._pending_requests.pop(message_id)
@@ -430,6 +444,7 @@ class SSETransport(Transport):
 
             if message_id is not None:
                 # Request - setup for response handling
+                request_id = message_id  # keep value and JSON type for synthesised replies
                 message_id = str(message_id)
                 future: asyncio.Future[Dict[str, Any]] = asyncio.Future()
                 async with self._message_lock:
@@ -479,7 +494,7 @@ class SSETransport(Transport):
                             # Send timeout error
                             error_response = {
                                 "jsonrpc": "2.0",
-                                "id": message_id,
+                                "id": request_id,
                                 "error": {"code": -32000, "message": "Request timeout"},
                             }
                             await self._route_incoming_message(error_response)
@@ -498,7 +513,7 @@ class SSETransport(Transport):
                             # Send error response
                             error_response = {
                                 "jsonrpc": "2.0",
-                                "id": message_id,
+                                "id": request_id,
                                 "error": {
                                     "code": -32603,
                                     "message": f"HTTP {response.status_code}: {response.text[:100]}",
@@ -511,7 +526,7 @@ class SSETransport(Transport):
                     # Send error response
                     error_response = {
                         "jsonrpc": "2.0",
-                        "id": message_id,
+                        "id": request_id,
                         "error": {"code": -32603, "message": str(e)},
                     }
                     await self._route_incoming_message(error_response)
@@ -519,6 +534,9 @@ class SSETransport(Transport):
                     # Clean up pending request
                     async with self._message_lock:
                         self._pending_requests.pop(message_id, None)
+                    self._finished_requests[message_id] = None
+                    while len(self._finished_requests) > 1024:
+                        self._finished_requests.pop(next(iter(self._finished_requests)))
 
             else:
                 # Notification - no response expected
